@@ -172,8 +172,14 @@ func TestVerif_Balancer(t *testing.T) {
 		// DIFFERENT lists must each return a member of the list they were given (every 40th input; two disjoint
 		// lists of 512 routable endpoints keep whatever a selector does per call busy for a while)
 		if sn%40 == 0 {
+			// (list sizes alternate between inputs: 512 keeps a selector busy per call, 5 is what deployments have --
+			// a selector may treat short lists differently, e.g. with a fixed-size scratch area)
+			size := 512
+			if (sn/40)%2 == 1 {
+				size = 5
+			}
 			mk := func(tag string) []*domain.Endpoint {
-				l := make([]*domain.Endpoint, 512)
+				l := make([]*domain.Endpoint, size)
 				for i := range l {
 					l[i] = &domain.Endpoint{Name: fmt.Sprintf("%s%d", tag, i), URLString: fmt.Sprintf("http://10.%s.%d.%d:11434", map[string]string{"a": "1", "b": "2"}[tag], i/250, i%250+1),
 						Status: domain.StatusHealthy, Priority: 100}
@@ -202,7 +208,11 @@ func TestVerif_Balancer(t *testing.T) {
 						if gi%2 == 1 {
 							list, tag = lb, "b"
 						}
-						for j := 0; j < 400; j++ {
+						rounds := 400
+						if size < 100 {
+							rounds = 20000
+						}
+						for j := 0; j < rounds; j++ {
 							e, err := sel.s.Select(ctx, list)
 							if err != nil || e == nil {
 								errs.Add(1)
